@@ -133,8 +133,300 @@ def targets():
 
 
 STAGES = []
-ORACLES = {}
+
+
+# ------------------------------------------------------------------------------------------
+# search oracle: the property as written, on the implementation
+# ------------------------------------------------------------------------------------------
+DIP = 60.0      # magnetic dip wherever the reference is selectable (EKF, ROLEQ); the others build their own reference
+_CD, _SD = math.cos(math.radians(DIP)), math.sin(math.radians(DIP))
+
+
+def _axang(ax, th):
+    ax = cm.unit(ax)
+    return np.array([math.cos(th / 2), *(math.sin(th / 2) * ax)])
+
+
+def _refs(filt, frame):
+    """(g_ref, m_ref): the reference directions of the filter in its own navigation frame.  Convention of this module:
+    v_nav = Rspec(q) v_body, measurement = Rspec(q)^T ref  (AQUA stores the conjugate quaternion)."""
+    import ahrs
+    if filt == 'mahony':
+        return np.array([0, 0, 1.0]), np.array([0, _CD, _SD])          # v_m = R^T [0, |h_xy|, h_z]
+    if filt in ('madgwick', 'aqua', 'complementary', 'fkf', 'ukf'):
+        return np.array([0, 0, 1.0]), np.array([_CD, 0, _SD])          # b = [|h_xy|, 0, h_z]
+    if filt == 'ekf':
+        e = ahrs.filters.EKF(frame=frame, magnetic_ref=DIP)
+        return np.array(e.a_ref, float), np.array(e.m_ref, float)
+    if filt == 'roleq':
+        e = ahrs.filters.ROLEQ(frame=frame, magnetic_ref=DIP)
+        return np.array(e.a_ref, float), np.array(e.m_ref, float)
+    raise KeyError(filt)
+
+
+def _initial(qstar, ang_deg, el_deg, az_deg, g):
+    """q0 = d * q*, d = rotation by ang about the navigation-frame axis at elevation el above the horizontal plane
+    (el = 90: pure heading error, el = 0: pure tilt error) and azimuth az"""
+    up = g / np.linalg.norm(g)
+    e1 = cm.unit(np.cross(up, [1.0, 0.3, 0.2]))
+    e2 = np.cross(up, e1)
+    el, az = math.radians(el_deg), math.radians(az_deg)
+    ax = math.cos(el) * (math.cos(az) * e1 + math.sin(az) * e2) + math.sin(el) * up
+    return cm.qmul(_axang(ax, math.radians(ang_deg)), qstar)
+
+
+def _err_total(q, qstar):
+    d = abs(float(np.dot(q, qstar))) / (np.linalg.norm(q) * np.linalg.norm(qstar))
+    return 2 * math.degrees(math.acos(min(1.0, d)))
+
+
+def _err_tilt(q, a, g):
+    q = np.asarray(q, float) / np.linalg.norm(q)
+    v = cm.Rspec(q).T @ g
+    c = float(np.dot(v, a)) / (np.linalg.norm(v) * np.linalg.norm(a))
+    return math.degrees(math.acos(max(-1.0, min(1.0, c))))
+
+
+def _gains(g):
+    out = {}
+    for k, v in (g or {}).items():
+        out[k] = np.array(v, float) if isinstance(v, list) else v
+    return out
+
+
+def run_filter(inp):
+    """run one filter through its public constructor (the streaming update where the constructor cannot take q0) on a
+    motionless history; returns the error history in degrees (total angle for MARG, tilt for IMU) and Q"""
+    import ahrs
+    F = ahrs.filters
+    filt, marg, frame = inp['filter'], bool(inp['marg']), inp.get('frame', 'NED')
+    qstar = cm.unit(inp['qstar'])
+    N = int(inp['N'])
+    gains = _gains(inp.get('gains'))
+    freq = float(inp.get('frequency', 100.0))
+    g, mref = _refs(filt, frame)
+    R = cm.Rspec(qstar)
+    a, m = R.T @ g, R.T @ mref
+    q0 = _initial(qstar, inp['ang'], inp.get('el', 0.0), inp.get('az', 0.0), g)
+    rng = np.random.default_rng(int(inp.get('noise_seed', 0)))
+    gyr = rng.uniform(-1, 1, (N, 3)) * float(inp.get('gyro_noise', 1e-3)) / math.sqrt(3)
+    acc = np.tile(a * 9.81, (N, 1))
+    mag = np.tile(m * 50.0, (N, 1)) if marg else None
+    conj = False
+    with warnings.catch_warnings(), np.errstate(all='ignore'):
+        warnings.simplefilter('ignore')
+        if filt == 'madgwick':
+            if not marg:
+                Qs = F.Madgwick(gyr=gyr, acc=acc, q0=q0, frequency=freq, **gains).Q
+            else:       # the MARG constructor ignores q0 (ecompass of sample 0): stream the public update from q0
+                f = F.Madgwick(gyr=gyr[:2], acc=acc[:2], mag=mag[:2], frequency=freq, **gains)
+                Qs = np.zeros((N, 4)); Qs[0] = q0
+                for t in range(1, N):
+                    Qs[t] = f.updateMARG(Qs[t - 1], gyr[t], acc[t], mag[t])
+        elif filt == 'mahony':
+            Qs = F.Mahony(gyr=gyr, acc=acc, mag=mag, q0=q0, frequency=freq, **gains).Q
+        elif filt == 'ekf':
+            Qs = F.EKF(gyr=gyr, acc=acc, mag=mag, q0=q0, frequency=freq, frame=frame, magnetic_ref=DIP, **gains).Q
+        elif filt == 'ukf':
+            Qs = F.UKF(gyr=gyr, acc=acc, q0=q0.copy(), frequency=freq, **gains).Q
+        elif filt == 'aqua':
+            Qs = F.AQUA(gyr=gyr, acc=acc, mag=mag, q0=cm.qconj(q0), frequency=freq, frame=frame, **gains).Q
+            conj = True
+        elif filt == 'roleq':
+            Qs = F.ROLEQ(gyr=gyr, acc=acc, mag=mag, q0=q0, frequency=freq, frame=frame, magnetic_ref=DIP, **gains).Q
+        elif filt == 'fkf':     # no q0 parameter: sample 0 carries the initial attitude (ecompass of sample 0)
+            acc, mag = acc.copy(), mag.copy()
+            acc[0] = cm.Rspec(q0).T @ g * 9.81
+            mag[0] = cm.Rspec(q0).T @ mref * 50.0
+            Qs = F.FKF(gyr=gyr, acc=acc, mag=mag, frequency=freq, **gains).Q
+        elif filt == 'complementary':
+            w0 = np.array(ahrs.Quaternion(q0).to_angles())
+            Qs = F.Complementary(gyr=gyr, acc=acc, mag=mag, w0=w0, frequency=freq, **gains).Q
+        else:
+            raise KeyError(filt)
+    Qs = np.asarray(Qs, float)
+    if conj:
+        Qs = Qs * np.array([1, -1, -1, -1.0])
+    if Qs.shape != (N, 4) or cm.bad(Qs):
+        return None, Qs
+    if marg:
+        e = np.array([_err_total(q, qstar) for q in Qs])
+    else:
+        e = np.array([_err_tilt(q, a, g) for q in Qs])
+    return e, Qs
+
+
+def _name(inp):
+    return f"{inp['filter']}-{'marg' if inp['marg'] else 'imu'}"
+
+
+def o_converge(inp):
+    """from the given initial error the estimate reaches the truth: error below tol from sample `settle` to the end,
+    and never above the initial error by more than `slack` degrees"""
+    from vlib.core import call_outcome
+    r = call_outcome(run_filter, inp)
+    nm = _name(inp)
+    if r[0] == 'raise':
+        return {'tag': f'{nm}/raises-{r[1]}', 'observed': list(r[1:])}
+    e, Qs = r[1]
+    if e is None:
+        return {'tag': f'{nm}/shape-or-nonfinite', 'observed': np.asarray(Qs)[-1:]}
+    tol, settle, slack = float(inp['tol']), int(inp['settle']), float(inp.get('slack', 0.5))
+    over = float(np.max(e - e[0]))
+    if over > slack:
+        k = int(np.argmax(e))
+        return {'tag': f'{nm}/exceeds-initial', 'observed': {'initial': float(e[0]), 'max': float(e[k]), 'at': k},
+                'expected': f'error <= initial + {slack} deg'}
+    tail = e[settle:]
+    if float(tail.max()) > tol:
+        k = settle + int(np.argmax(tail))
+        return {'tag': f'{nm}/not-settled', 'observed': {'initial': float(e[0]), 'error': float(e[k]), 'at': k, 'final': float(e[-1])},
+                'expected': f'error <= {tol} deg from sample {settle} on'}
+    return None
+
+
+def o_zero_gyro(inp):
+    """the same with a gyroscope that reads exactly zero (a realisation of |noise| <= 1e-3): the correction must not
+    depend on the measured rate being non-zero"""
+    from vlib.core import call_outcome
+    inp2 = dict(inp, gyro_noise=0.0)
+    r = call_outcome(run_filter, inp2)
+    nm = inp['filter']
+    if r[0] == 'raise':
+        return {'tag': f'{nm}/zero-gyro-raises-{r[1]}', 'observed': list(r[1:])}
+    e, Qs = r[1]
+    if e is None:
+        return {'tag': f'{nm}/zero-gyro-nonfinite', 'observed': np.asarray(Qs)[-1:]}
+    if e[-1] > 0.5 * e[0]:
+        frozen = bool(np.max(np.abs(Qs - Qs[0])) == 0.0)
+        return {'tag': f"{nm}/zero-gyro-{'frozen' if frozen else 'not-converging'}",
+                'observed': {'initial': float(e[0]), 'final': float(e[-1])}, 'expected': 'final error < half the initial error'}
+    return None
+
+
+def o_jacobian(inp):
+    """EKF: dhdq(q) (both modes) is the derivative of the measurement model along the unit sphere: central differences of
+    h along tangent directions; and dfdq is the derivative of f"""
+    import ahrs
+    q = cm.unit(inp['q'])
+    frame, marg, mode = inp.get('frame', 'NED'), bool(inp['marg']), inp.get('mode', 'normal')
+    e = ahrs.filters.EKF(frame=frame, magnetic_ref=DIP, mag=(np.zeros((1, 3)) if marg else None))
+    H = np.asarray(e.dhdq(q.copy(), mode=mode), float)
+    nm = f"ekf.dhdq-{mode}"
+    rows = 6 if marg else 3
+    if H.shape != (rows, 4) or cm.bad(H):
+        return {'tag': f'{nm}/shape-or-nonfinite', 'observed': H}
+    eps = 1e-6
+    worst = 0.0
+    for k in range(4):
+        d = np.zeros(4); d[k] = 1.0
+        d = d - np.dot(d, q) * q            # tangent direction
+        num = (np.asarray(e.h(cm.unit(q + eps * d)), float) - np.asarray(e.h(cm.unit(q - eps * d)), float)) / (2 * eps)
+        worst = max(worst, cm.maxabs(H @ d, num))
+    if worst > 1e-6:
+        return {'tag': f'{nm}/not-derivative-of-h', 'observed': worst, 'expected': '<= 1e-6'}
+    w = np.array(inp.get('omega', [0.1, -0.2, 0.3]), float)
+    Fm = np.asarray(e.dfdq(w, 0.01), float)
+    for k in range(4):
+        d = np.zeros(4); d[k] = 1.0
+        num = np.asarray(e.f(q + d, w, 0.01), float) - np.asarray(e.f(q, w, 0.01), float)
+        if cm.maxabs(Fm @ d, num) > 1e-12:
+            return {'tag': 'ekf.dfdq/not-derivative-of-f', 'observed': cm.maxabs(Fm @ d, num)}
+    return None
+
+
+ORACLES = {'converge': o_converge, 'zero_gyro': o_zero_gyro, 'jacobian': o_jacobian}
+
+# configuration table.  Each row: filter, marg, frame, gains, frequency, N, settle, tol (deg), slack (deg), tier.
+# Calibration (unchanged tree, 2 attitudes x {175,120,45} deg x {tilt, mixed, heading}, noise 1e-3): `settle` >= 1.5 x the
+# worst observed settling index, tol >= 5 x the worst observed floor (max error over the last 10 %), see notes/design/C05.md.
+CONFIGS = [
+    # filter          marg  frame  gains                                    freq    N     settle tol   slack tier
+    ('madgwick',      0, 'NED', {},                                          10.0, 3600, 3000, 2.0,  0.5, 'q'),   # floor .37 (chatter ~ beta*dt), settle 1745
+    ('madgwick',      1, 'NED', {},                                          10.0, 3600, 3000, 2.0,  0.5, 'q'),   # floor .37, settle 1888
+    ('madgwick',      0, 'NED', {'gain': 0.5},                              100.0, 2400, 2000, 3.0,  0.5, 'q'),   # floor .52, settle 1147 (tol 2)
+    ('madgwick',      1, 'NED', {'gain': 0.5},                              100.0, 3000, 2500, 3.0,  0.5, 't'),   # floor .47, settle 1544
+    ('mahony',        0, 'NED', {},                                         100.0, 3000, 2600, 0.05, 0.5, 'q'),   # floor 5.1e-3, settle 1699
+    ('mahony',        1, 'NED', {},                                          20.0, 4800, 4300, 0.15, 0.5, 'q'),   # floor 2.1e-2, settle 2851
+    ('mahony',        0, 'NED', {'k_P': 3.0, 'k_I': 1.5},                   100.0, 2200, 1800, 0.05, 0.5, 'q'),   # floor 2.2e-3, settle 1202
+    ('mahony',        1, 'NED', {'k_P': 3.0, 'k_I': 1.5},                   100.0, 8000, 7400, 0.15, 0.5, 't'),   # floor 2.5e-2, settle 4940
+    ('ekf',           0, 'NED', {},                                         100.0, 1300, 1000, 0.05, 0.5, 'q'),   # floor 4.5e-3, settle 619
+    ('ekf',           0, 'ENU', {},                                         100.0, 1300, 1000, 0.05, 0.5, 'q'),   # floor 4.5e-3, settle 620
+    ('ekf',           1, 'NED', {},                                          20.0, 2400, 2000, 0.15, 7.0, 'q'),   # floor 2.0e-2, settle 1306, overshoot 1.32
+    ('ekf',           1, 'ENU', {},                                          20.0, 2400, 2000, 0.15, 7.0, 'q'),   # floor 1.8e-2, settle 1255
+    ('ekf',           0, 'NED', {'noises': [0.01, 0.0025, 0.0025]},         100.0, 300,  100,  0.05, 0.5, 'q'),   # floor 2.6e-3, settle 31
+    ('ekf',           1, 'NED', {'noises': [0.01, 0.0025, 0.0025]},         100.0, 2800, 2400, 0.05, 7.0, 't'),   # floor 3.5e-3, settle 1573
+    ('aqua',          0, 'NED', {},                                         100.0, 1500, 1250, 0.05, 0.5, 'q'),   # floor 3.2e-3, settle 815
+    ('aqua',          1, 'NED', {},                                         100.0, 1900, 1650, 0.05, 0.5, 'q'),   # floor 5.4e-3, settle 1075
+    ('aqua',          0, 'NED', {'alpha': 0.05, 'beta': 0.03},              100.0, 400,  250,  0.05, 0.5, 'q'),   # floor 1.9e-3, settle 159
+    ('aqua',          1, 'ENU', {'alpha': 0.05, 'beta': 0.03},              100.0, 600,  450,  0.05, 0.5, 'q'),   # floor 2.8e-3, settle 279
+    ('aqua',          1, 'NED', {'adaptive': True},                         100.0, 1500, 1250, 0.05, 0.5, 't'),   # floor 3.9e-3, settle 821
+    ('roleq',         1, 'NED', {},                                         100.0, 200,  100,  0.01, 0.5, 'q'),   # floor 5.2e-4, settle 30
+    ('roleq',         1, 'ENU', {},                                         100.0, 350,  250,  0.01, 0.5, 'q'),   # floor 1.1e-3, settle 133
+    ('roleq',         1, 'NED', {'weights': [0.7, 0.3]},                    100.0, 220,  120,  0.01, 0.5, 'q'),   # floor 7.6e-4, settle 57
+    ('complementary', 0, 'NED', {},                                         100.0, 250,  150,  0.01, 0.5, 'q'),   # floor 1.1e-3, settle 91
+    ('complementary', 1, 'NED', {},                                         100.0, 250,  150,  0.01, 0.5, 'q'),   # floor 1.5e-3, settle 93
+    ('complementary', 1, 'NED', {'gain': 0.5},                              100.0, 100,  40,   0.01, 0.5, 'q'),   # floor 3.9e-4, settle 14
+    # FKF calibrated on the tree with fixes/C05-fkf-unit-measurement.patch (without it: known findings fkf-marg/*)
+    ('fkf',           1, 'NED', {},                                          10.0, 4200, 3800, 0.25, 0.5, 'q'),   # floor 3.7e-2, settle 2509 (tol .2)
+    ('fkf',           1, 'NED', {'sigma_g': 1.0, 'sigma_a': 0.001, 'sigma_m': 0.001, 'Pk': 1.0}, 100.0, 1500, 1250, 0.25, 0.5, 'q'),   # floor 2.3e-3, settle 804
+    ('fkf',           1, 'NED', {'sigma_g': 1.0, 'sigma_a': 0.01, 'sigma_m': 0.01}, 100.0, 4200, 3800, 0.25, 0.5, 't'),   # floor 3.7e-3, settle 2512
+    ('ukf',           0, 'NED', {},                                         100.0, 2000, 1600, 5.0,  0.5, 'q'),   # UKF: see known findings
+]
+
+
+def _cfg_inp(row, qstar, ang, el, az, seed):
+    filt, marg, frame, gains, freq, N, settle, tol, slack, _ = row
+    return {'filter': filt, 'marg': bool(marg), 'frame': frame, 'gains': gains, 'frequency': freq, 'N': N,
+            'settle': settle, 'tol': tol, 'slack': slack, 'qstar': [float(x) for x in qstar], 'ang': float(ang),
+            'el': float(el), 'az': float(az), 'noise_seed': int(seed), 'gyro_noise': 1e-3}
+
+
+def _attitudes(rng, n):
+    out = [np.array([1.0, 0, 0, 0]), cm.axang_q([1, 0, 0], math.pi / 2), cm.axang_q([0, 1, 0], -2.0), cm.axang_q([0, 0, 1], math.pi)]
+    while len(out) < n + 4:
+        out.append(cm.rand_unit_quat(rng))
+    return out
 
 
 def search(ctx, scale):
-    pass
+    thorough = scale > 1
+    rng = ctx.rng
+    atts = _attitudes(rng, 4 if not thorough else 10)
+    # quick: per configuration 3 runs (175 deg at rotating elevation, one mid error, one small); thorough: a grid
+    for ci, row in enumerate(CONFIGS):
+        if row[9] == 't' and not thorough:
+            continue
+        marg = row[1]
+        if not thorough:
+            plan = [(atts[4 + ci % 4], 175.0, (0.0, 45.0, 90.0)[ci % 3], 40.0),
+                    (atts[ci % 4], (120.0, 90.0, 60.0)[ci % 3], (90.0, 0.0, 45.0)[ci % 3], 200.0),
+                    (atts[4 + (ci + 1) % 4], 5.0, 30.0, 300.0)]
+        else:
+            plan = []
+            for ai, q in enumerate(atts):
+                for ang in (175.0, 150.0, 120.0, 90.0, 45.0, 10.0):
+                    if (ai + int(ang)) % 3 and ang not in (175.0,):
+                        continue
+                    for el in ((0.0, 30.0, 60.0, 90.0) if marg else (0.0, 45.0)):
+                        plan.append((q, ang, el, float(rng.uniform(0, 360))))
+        for k, (q, ang, el, az) in enumerate(plan):
+            inp = _cfg_inp(row, q, ang, el if marg else min(el, 60.0), az, seed=1000 * ci + k)
+            ctx.check('converge', inp, o_converge(inp),
+                      nontrivial_key=(ci, tuple(np.round(q, 6)), ang, el, round(az, 3)) if ang >= 5 else None)
+    # exact-zero gyroscope: one run per filter and mode
+    for ci, row in enumerate(CONFIGS):
+        if row[3] or row[9] == 't':
+            continue
+        inp = _cfg_inp(row, atts[4 + ci % 2], 30.0, 45.0, 100.0, seed=7)
+        inp['N'] = min(inp['N'], 1500) if row[0] not in ('madgwick',) else inp['N']
+        ctx.check('zero_gyro', inp, o_zero_gyro(inp), nontrivial_key=('zero', ci))
+    # Jacobians numerically (both modes, both frames)
+    for k in range(4 * scale):
+        q = cm.rand_unit_quat(rng)
+        for frame in ('NED', 'ENU'):
+            for marg in (False, True):
+                for mode in ('normal', 'refactored'):
+                    inp = {'q': q.tolist(), 'frame': frame, 'marg': marg, 'mode': mode}
+                    ctx.check('jacobian', inp, o_jacobian(inp), nontrivial_key=(frame, marg, mode, tuple(np.round(q, 6))))
+    ctx.samples.append({'kind': 'search', 'oracle': 'converge', 'input': _cfg_inp(CONFIGS[4], atts[5], 175.0, 0.0, 40.0, 1)})
